@@ -82,7 +82,10 @@ func configs(r *ev.Run) []cfg {
 	for _, n := range []int{2, 3, 4} {
 		for _, own := range []int{0, n - 1} {
 			sets := [][]int{rng(0, n), rng(1, n+1), rng(100, 100+n)}
-			for ti, ticks := range [][]proch.Event{{{Kind: "tick", DtSec: 31}}, {{Kind: "tick", DtSec: 31}, {Kind: "tick", DtSec: 330}, {Kind: "tick", DtSec: 30}}} {
+			for ti, ticks := range [][]proch.Event{{{Kind: "tick", DtSec: 31}}, {{Kind: "tick", DtSec: 31}, {Kind: "tick", DtSec: 330}, {Kind: "tick", DtSec: 30}},
+				// the set rotates while the message is pending, THEN the cleanup service settles and retries it
+				{{Kind: "set", Set: 1}, {Kind: "tick", DtSec: 31}, {Kind: "tick", DtSec: 330}},
+				{{Kind: "tick", DtSec: 31}, {Kind: "set", Set: 1}, {Kind: "tick", DtSec: 330}, {Kind: "tick", DtSec: 30}}} {
 				prefix := append([]proch.Event{{Kind: "set", Set: 0}, {Kind: "msg", M: 0}, {Kind: "lb", LB: 0}}, ticks...)
 				out = append(out, cfg{C: proch.Config{Name: fmt.Sprintf("n%d-own%d-settled%d", n, own, ti), Sets: sets, OwnKey: own, Msgs: msgs()},
 					NSets: 2, MsgIdx: []int{0}, ObsKeys: append(rng(0, n+1), outsider), Depth: r.Pick(5, 6), InMsgs: []int{0}, InVars: []int{0, 1}, MaxState: 400000, Prefix: prefix, AnySet: true})
